@@ -367,7 +367,7 @@ def r6_condense_add(ctx):
     # __add__
     f = prog.find_func("PreferenceProfile.__add__")
     other = f.params[1]
-    defs = {astx.u(n.targets[0]): astx.u(n.value) for n in astx.walk_own(f.node) if isinstance(n, ast.Assign)}
+    defs = astx.single_assignments(f.node)
     rets = [n for n in astx.walk_own(f.node) if isinstance(n, ast.Return)]
     good = defs.get("ballots") == f"self.ballots + {other}.ballots" and any(v == "PreferenceProfile(ballots=ballots)" for v in defs.values()) and len(rets) == 1
     ctx.check(good, f, f.node, "__add__ builds a profile from the concatenated ballot tuples", str(defs), f"__add__ does {defs}")
@@ -376,7 +376,7 @@ def r6_condense_add(ctx):
     # __eq__ of profiles: condense both, mutual containment
     f = prog.find_func("PreferenceProfile.__eq__")
     other = f.params[1]
-    defs = {astx.u(n.targets[0]): astx.u(n.value) for n in astx.walk_own(f.node) if isinstance(n, ast.Assign)}
+    defs = astx.single_assignments(f.node)
     loops = [n for n in astx.walk_own(f.node) if isinstance(n, ast.For)]
     good = sorted(defs.values()) == sorted(["self.condense_ballots()", f"{other}.condense_ballots()"]) and len(loops) == 2
     if good:
